@@ -1035,6 +1035,13 @@ def slice_to_ascending_slice(
     if key.step is None or key.step > 0:
         return key
 
+    if (key.start is not None and key.start < 0) or (key.stop is not None and key.stop < 0):
+        # negative bounds: realize the positions selected, as NumPy does
+        positions = range(*key.indices(size))
+        if not positions:
+            return slice(0, 0)
+        return slice(positions[-1], positions[0] + 1, -key.step)
+
     stop = key.start if key.start is None else key.start + 1
 
     if key.step == -1:
